@@ -44,7 +44,7 @@ func C01(e *Env) {
 	c14Guards(e)
 	c14Sanitise(e, "R14.3")
 	sharedWriteRules(e)
-	r.Rule("R10.2", "the file on disk is exactly the generated source: one os.WriteFile (create, truncate, write) after a successful build (shared with C10): a stale tail of a longer previous file does not parse", 3)
+	r.Rule("R10.2", "the file on disk is exactly the generated source: one os.WriteFile (create, truncate, write) after a successful build (shared with C10): a stale tail of a longer previous file does not parse", 2)
 	r.Rule("R10.1", "the written path is the -o path (shared with C10)", 1)
 	mergeLiteralRule(e, "mergeMeta", "Meta")
 	mergeLiteralRule(e, "Merge", "Input")
